@@ -33,6 +33,7 @@ eq("C14", "src/pset/map/output.rs", "        merge!(witness_script, self, other)
 eq("C16", "src/script.rs", "self.0.len() == 22 &&\n            self.0[0] == opcodes::all::OP_PUSHBYTES_0.into_u8() &&\n            self.0[1] == opcodes::all::OP_PUSHBYTES_20.into_u8()",
    "22 == self.0.len() &&\n            self.0[1] == 0x14 &&\n            self.0[0] == 0x00", "orientation and literals")
 eq("C05", "src/blind.rs", "if let Some(comm) = out.value.commitment() {", "if let Value::Confidential(comm) = out.value {", "pattern instead of accessor")
+eq("C05", "src/blind.rs", "        self.verify(secp, asset_commit, &[gen])\n", "        let verdict = self.verify(secp, asset_commit, &[gen]);\n        verdict\n", "temporary for the verdict (R5.asset-proof-verdict must follow it)")
 eq("C11", "src/issuance.rs", "AssetId::from_midstate(fast_merkle_root(&[entropy.to_byte_array(), ZERO32]))",
    "{ let leaves = [entropy.to_byte_array(), ZERO32]; let root = fast_merkle_root(&leaves); AssetId::from_midstate(root) }", "locals")
 eq("C11", "src/issuance.rs", "let mut enc = sha256d::Hash::engine();\n            prevout.consensus_encode(&mut enc).unwrap();\n            sha256d::Hash::from_engine(enc)",
